@@ -92,14 +92,17 @@ def history_case(cid, change, L):
 def make():
     return Schema([Rule(('a', 'b'), Value.equal_to(t)), Rule(('s',), Value.equal_to(True), cast={{str: valida.casting.cast_string_to_bool}})])
 sch = make()
-doc = {{'a': {{'b': u1, 'p': u2}}, 's': 'true', 'n': '3', 'p': u2}}
+doc = {{'a': {{'b': u1, 'p': u2}}, 's': 'true', 'n': '3', 'p': u2, 'srv': {{'port': '8080', 'deep': {{'port': '80800000'}}}}}}
 js1 = sch.to_json_like()
 ok = note('first serialisation round-trips', Schema.from_json_like(js1) == sch)
 {change}
 js2 = sch.to_json_like()
 back = Schema.from_json_like(js2)
 ok = ok and note('serialised again after the change: rebuilt equals the changed schema', back == sch and len(back) == len(sch))
-ok = ok and same('... and validates identically', summarize_validation(back.validate(doc)), summarize_validation(sch.validate(doc)))
+import copy
+doc2 = copy.deepcopy(doc)
+ok = ok and same('... and validates identically', summarize_validation(back.validate(doc2)), summarize_validation(sch.validate(doc)))
+ok = ok and same('... (the other way round, on separate copies)', summarize_validation(sch.validate(copy.deepcopy(doc2))), summarize_validation(back.validate(copy.deepcopy(doc2))))
 ok = ok and same('serialising twice gives the same data', tx(sch.to_json_like()), tx(js2))
 return ok
 """
@@ -114,6 +117,10 @@ def cases(ctx):
     out.append(history_case("add_schema.twice_same", "sub = Schema([Rule(('p',), Value.greater_than(t), cast={str: int}), Rule(('b',), Value.truthy())])\nsch.add_schema(sub, DataPath('a'))\nsch.add_schema(sub, DataPath('a'))", L))
     out.append(history_case("add_schema.shared_rule", "common = Rule(('p',), Value.greater_than(t))\nsch.add_schema(Schema([common, Rule(('b',), Value.falsy())]), DataPath('a'))\nsch.add_schema(Schema([Rule(('p',), Value.greater_than(t))]), DataPath('a'))", L))
     out.append(history_case("duplicate_rule_given", "sch = Schema([Rule(('a', 'b'), Value.equal_to(t)), Rule(('a', 'b'), Value.equal_to(t)), Rule(('s',), Value.equal_to(t))])", L))
+    # a cast-free schema extended with casting rules under a root; a later cast-free rule looks at the raw value of the cast node
+    out.append(history_case("add_schema.casts_into_castfree",
+                            "sch = Schema([Rule(('a', 'b'), Value.equal_to(t))])\njs1 = sch.to_json_like()\n"
+                            "sch.add_schema(Schema([Rule(('port',), Value.greater_than(t), cast={str: int}), Rule(('port',), Value.length.less_than(6)), Rule(('port',), Value.dtype.equal_to(str))]), DataPath('srv'))", L))
     out.append(history_case("rules_edited", "sch.rules = sch.rules[:1] + [Rule(('n',), Value.is_instance(int), cast={str: int})]", L))
     out.append(history_case("rule_replaced", "sch.rules[0] = Rule(('n',), Value.not_equal_to(t), cast={str: int})", L))
     for n, names in enumerate(COMBOS):
